@@ -408,8 +408,9 @@ def into_data(val: Convertible, ty: t.Optional[IntoConverter] = None, *,
     """
     inferred = ty is None
     if ty is None:
-        if isinstance(val, _ScalarType) and custom is None:
+        if isinstance(val, _ScalarType) and not isinstance(val, enum.Enum) and custom is None:
             # we can bypass the converter for scalar types
+            # (but not for members of enums which mix in a scalar type: those serialise to their value)
             return val
         ty = type(val)
 
